@@ -705,8 +705,8 @@ std::pair<JunctionRef *, ConnRef *> ConnRef::splitAtSegment(
                 m_display_route.at(segmentN));
 
         // Create the new junction.
+        // (The JunctionRef constructor adds the junction to the router.)
         newJunction = new JunctionRef(router(), junctionPos);
-        router()->addJunction(newJunction);
         newJunction->preferOrthogonalDimension(
                 (m_display_route.at(segmentN - 1).x == 
                     m_display_route.at(segmentN).x) ? YDIM : XDIM);
